@@ -184,7 +184,7 @@ func (in *inst) static(n *vnode, st *State, f *ssa.Function, args []Val, binding
 	fv := in.fv
 	sig := f.Signature
 	inModule := f.Blocks != nil && ((f.Pkg != nil && strings.HasPrefix(f.Pkg.Pkg.Path(), modPath)) || f.Parent() != nil || f.Synthetic != "")
-	if ct := fv.eng.contracts[f]; ct != nil {
+	if ct := fv.eng.contracts[f]; ct != nil && !ct.Synth {
 		env := map[string]Val{}
 		for i, p := range f.Params {
 			if i < len(args) {
@@ -401,9 +401,22 @@ func (in *inst) applyContract(n *vnode, st *State, ct *Contract, callee string, 
 			keys = append(keys, k)
 		}
 		sort.Strings(keys)
+		vlr := fv.visibleLocalRoots()
 		for _, k := range keys {
 			r := regs[k]
-			fv.havocHeap(st, k, r.sort, r.pred, nil).calleeFrame = true
+			pred := r.pred
+			if len(vlr) > 0 {
+				// a callee cannot reach cells of the caller that never escape
+				p0 := pred
+				pred = func(l string) string {
+					cs := []string{p0(l)}
+					for _, lr := range vlr {
+						cs = append(cs, not(eq("(root "+l+")", "(root "+lr+")")))
+					}
+					return and(cs...)
+				}
+			}
+			fv.havocHeap(st, k, r.sort, pred, nil).calleeFrame = true
 		}
 	}
 	a := fv.decl("alloc", "Int")
